@@ -150,6 +150,9 @@ DIMS = [
     ({'isVariableSize': 'true', 'size': 'N', 'variableSizeFieldType': 'u8', 'variableSizeFieldName': 'cnt'}, False, (True, True, 'u8')),
     ({'isVariableSize': 'true', 'size': 'N'}, True, (True, False, 'u32')),
     ({'variableSizeFieldName': '@pre'}, False, (True, False, None)),
+    ({'isVariableSize': 'true', 'size': 'N', 'size2': 'M'}, False, (True, True, 'u32')),      # limited, two dimensions: storage N*M
+    ({'isVariableSize': 'true', 'size': 'N', 'size2': 'M'}, True, (True, False, 'u32')),       # message tail: dynamic, no storage limit
+    ({'size': 'N', 'size2': 'M'}, True, (False, True, None)),
 ]
 
 
